@@ -93,7 +93,7 @@ fn calls() -> Vec<Call> {
 			None => Err(libwallet::Error::GenericError("skip".into())),
 		})),
 		("build_output", true, Box::new(|o, t, _| o.build_output(t, OutputFeatures::Plain, 1000).map(|_| ()))),
-		("start_updater+stop", false, Box::new(|o, t, _| {
+		("start_updater+stop", true, Box::new(|o, t, _| {
 			let r = o.start_updater(t, std::time::Duration::from_millis(20));
 			std::thread::sleep(std::time::Duration::from_millis(80));
 			let _ = o.stop_updater();
@@ -281,6 +281,43 @@ pub fn run(a: &Args) {
 					}
 				}
 			}
+		}
+		// The background updater: started with a wrong token it cannot refresh anything; whatever start_updater
+		// answers, the wallet must afterwards still behave, for the holder of the right token, like an unmasked
+		// wallet - a refreshing call refreshes. Likewise after the updater was started with the right token and the
+		// wallet was closed and reopened (which hands out a new token and leaves the updater with the old one).
+		for variant in ["started-with-a-wrong-token", "started-with-the-right-token-then-wallet-reopened"].iter() {
+			if round + 1 != rounds {
+				break; // last round only: the reopened wallet has a token the harness's own wrapper does not know
+			}
+			rep.eval();
+			let mut tok = right.clone();
+			let started = if *variant == "started-with-a-wrong-token" {
+				owner.start_updater(wrongs[1].1.as_ref(), std::time::Duration::from_millis(20))
+			} else {
+				let r = owner.start_updater(Some(&right), std::time::Duration::from_millis(20));
+				std::thread::sleep(std::time::Duration::from_millis(60));
+				let _ = owner.close_wallet(Some("w0"));
+				match owner.open_wallet(Some("w0"), grin_util::ZeroingString::from("pw"), true) {
+					Ok(Some(t)) => tok = t,
+					_ => {
+						rep.inconclusive("could not reopen the masked wallet");
+					}
+				}
+				r
+			};
+			std::thread::sleep(std::time::Duration::from_millis(150));
+			let _ = w.mine(Some(0), true);
+			let tip = w.height();
+			let r = owner.retrieve_summary_info(Some(&tok), true, 1);
+			let case = json!({"job":"c14","scenario": "background updater", "variant": variant, "start_updater_returned": format!("{:?}", started.as_ref().map_err(err_kind)), "chain_height": tip});
+			match r {
+				Ok((validated, info)) if validated && info.last_confirmed_height == tip => rep.count(&format!("updater:{}:right-token-refresh-still-works", variant)),
+				Ok((validated, info)) => rep.violation(&format!("C14|right-token-refresh-disabled|updater-{}", variant), &format!("after the updater was {} (start_updater returned {:?}), retrieve_summary_info(refresh = true) with the right token answered validated = {} at height {} while the chain is at {}", variant, started.as_ref().map_err(err_kind), validated, info.last_confirmed_height, tip), case),
+				Err(e) => rep.violation(&format!("C14|right-token-refused|updater-{}", variant), &format!("retrieve_summary_info with the right token failed: {:?}", e), case),
+			}
+			let _ = owner.stop_updater();
+			std::thread::sleep(std::time::Duration::from_millis(60));
 		}
 		// cleanup of pending material
 		for i in 0..2 {
